@@ -289,7 +289,7 @@ def run_property(prop, tier, seed, replay=None):
         return 1 if ctx.violations else 0
 
     nshards = int(os.environ.get('VERIF_SHARDS', getattr(check, 'SHARDS', min(16, os.cpu_count() or 1))))
-    budget = float(os.environ.get('VERIF_BUDGET_S', getattr(check, 'BUDGET_S', {'quick': 240, 'thorough': 2400})[tier]))
+    budget = float(os.environ.get('VERIF_BUDGET_S', getattr(check, 'BUDGET_S', {'quick': 600, 'thorough': 2400})[tier]))
     tmpdir = tempfile.mkdtemp(prefix=f'bqverif-{prop}-')
     procs = []
     env = dict(os.environ)
